@@ -294,10 +294,15 @@ def run(rep):
         j = next((k for k, r in enumerate(res) if r["model"]["expect"] == "range" and origin[k] == "mixed"), 0)
         samples.append({"program": res[j]["model"]["src"], "reference": [res[j]["model"]["expect"], res[j]["model"]["out"]],
                         "main": [res[j]["impl"]["rc"], res[j]["impl"]["out"]] if res[j]["impl"] else None})
+    # programs that Ref ends with a division / bounds / other error are the subject of C01 / C05 (and of their recorded
+    # findings, e.g. an out-of-range middle index of a 3-D array); here only runs that finish or end in a range error count
+    not_compared = sum(1 for r in res if r["model"]["expect"] not in ("finished", "range", "undef", "nofuel"))
+    bad = [(k, w) for k, w in bad if res[k]["model"]["expect"] in ("finished", "range")]
     for k, why in bad[:4]:
         def still_bad(sxp, why=why):
             r, b = differential(impl, [sxp], fuel=1500, model_timeout=20)
-            return bool(b) and b[0][1] == why and "Undefined" not in r[0]["impl"]["err"] and r[0]["model"]["expect"] != "unbound"
+            return (bool(b) and b[0][1] == why and "Undefined" not in r[0]["impl"]["err"]
+                    and r[0]["model"]["expect"] in ("finished", "range"))
         try:
             small = langrun.shrink(progs[k], still_bad, budget=80 if quick else 300)
         except Exception:
@@ -371,7 +376,7 @@ def run(rep):
         "matrix_cells_run": matrix_cells, "matrix_passes": passes, "matrix_cells_where_mech_differs_from_spec": defect_cells,
         "cells_per_path": dict(cells_by_path), "known_finding_cells": dict(known_cells), "fixed_cells": dict(fixed_cells),
         "input_distribution": dict(hist), "reference_outcomes": dict(outcomes),
-        "random_programs_ending_in_range_error": range_errors,
+        "random_programs_ending_in_range_error": range_errors, "random_programs_with_other_error_not_compared": not_compared,
         "features": dict(feats.most_common(25)), "findings_replayed": replayed,
         "discarded_not_well_formed": outcomes.get("undef", 0) + outcomes.get("nofuel", 0),
         "samples": samples, "disagreements": len(violations),
@@ -380,6 +385,7 @@ def run(rep):
         "programs on which Ref reports Undef (signed 64-bit overflow of an intermediate) are not well-formed and are discarded (counted)",
         "matrix cells on which the Mech model differs from Spec are the recorded findings: main must then agree with Mech (KNOWN-FINDING) or with Ref (note)",
         "random programs stay on store paths where Mech = Spec (gen_c04.mixed_program, gen_core.Opts.avoid_*)",
+        "random programs that the reference ends with a division-by-zero or bounds error are not compared here (C01 / C05 decide them)",
         "`unsigned char` is rejected by the parser: 9 of the 10 types of the property are enumerated",
     ]
 
